@@ -198,7 +198,10 @@ Definition kstep (es : denv * cst) (x : cstim) : denv * cst :=
           drain (e2, snd es1)
       | None => (e, s)
       end
-  | KCancel c => drain (e, cstep s (CCancel c))
+  | KCancel c =>
+      (* the cancelled caller's select takes its ctx.Done case (the harness never has a
+         response pending at this point), then everything else runs *)
+      drain (e, cstep (cstep s (CCancel c)) (CLeave c false))
   | KBackoff a => drain (de_backoff e (a :: dn_backoff e), s)
   | KPark => (de_park e true (dn_blocked e), s)
   | KRelease => drain (de_park e false None, s)
